@@ -7,7 +7,11 @@
      C16.wedged            the bystander connection got no reply while the process was alive
      C16.no_reply_no_close the input held a complete request and the proxy neither replied nor closed the
                            connection within 4 s + 1.5 s per MiB of input
-     C16.memory            peak resident memory of the process grew by more than 64 x bytes + 32 MiB        *)
+     C16.memory            peak resident memory of the process grew by more than 64 x bytes + 32 MiB
+     C16.cpu_time          the process consumed more CPU time during the case than 3 s + 30 ms per KiB of input
+                           (CPU time of the child, read from /proc: independent of how busy the machine is)
+   Wall-clock waits are patient (the rig keeps waiting 40 s beyond the nominal deadline unless the CPU budget is
+   already exceeded twice over), so that a loaded machine cannot produce an alarm.                                *)
 EXTENDS Naturals, Integers, Sequences, FiniteSets, TLC, Json, IOUtils, SequencesExt
 
 Rec == ndJsonDeserialize(IOEnv.TRACE)
@@ -21,6 +25,7 @@ Mon(e) ==
     (IF e.panics > 0 THEN {"C16.panicked"} ELSE {}) \cup
     (IF e.alive /\ e.probe # "reply" THEN {"C16.wedged"} ELSE {}) \cup
     (IF e.complete /\ e.outcome = "nothing" THEN {"C16.no_reply_no_close"} ELSE {}) \cup
+    (IF "cpu_ms" \in DOMAIN e /\ e.cpu_ms > e.cpu_budget_ms THEN {"C16.cpu_time"} ELSE {}) \cup
     (IF e.alive /\ e.hwm_after_kb - e.rss_before_kb > (64 * e.bytes) \div 1024 + 32768 THEN {"C16.memory"} ELSE {})
 
 Div(e) == IF e.ev = "rig_error" THEN {"RIG.error"} ELSE {}
